@@ -67,7 +67,7 @@ JTrue == N("jbool", "True", <<>>)
 ReservedKeys == {"_is_task", "_is_enum", "_is_dict"}
 HasReservedKey(v) == \E i \in DOMAIN Kids(v) : i % 2 = 1 /\ KeyStr(Kids(v)[i]) \in ReservedKeys
 
-EnumClass(a) == CHOOSE c \in {"me.E1", "me.E2", "me.E3", "me.E4"} : \E i \in 1..Len(a) : SubSeq(a, 1, i) = c
+EnumClass(a) == CHOOSE c \in {"me.E1", "me.E2", "me.E3", "me.E4", "me.Holder.E5"} : \E i \in 1..Len(a) : SubSeq(a, 1, i) = c
 EnumMember(a) == SubSeq(a, Len(EnumClass(a)) + 2, Len(a))
 
 RECURSIVE Ser(_)
@@ -149,7 +149,8 @@ Key(t) == Ser(t)              \* sha1 and json.dumps are trusted to be injective
 Atoms == { N("none", "None", <<>>), N("str", "a", <<>>), N("str", "", <<>>), N("str", "1", <<>>),
            N("bool", "True", <<>>), N("int", "1", <<>>), N("float", "1.0", <<>>), N("int", "0", <<>>), N("float", "-0.0", <<>>),
            N("enum", "me.E1.A", <<>>), N("enum", "me.E1.B", <<>>), N("enum", "me.E2.A", <<>>),
-           N("enum", "me.E3.ONE", <<>>), N("enum", "me.E4.A", <<>>) }       \* members of scalar-mixin enums (IntEnum, str + Enum)
+           N("enum", "me.E3.ONE", <<>>), N("enum", "me.E4.A", <<>>),        \* members of scalar-mixin enums (IntEnum, str + Enum)
+           N("enum", "me.Holder.E5.A", <<>>) }                               \* a member of an enum class defined inside another class
 SmallAtoms == { N("str", "a", <<>>), N("int", "1", <<>>), N("bool", "True", <<>>), N("enum", "me.E1.A", <<>>) }
 Unsupported == { N("set", "", <<>>), N("bytes", "b", <<>>), N("obj", "", <<>>) }
 KeyNodes == { N("str", "k", <<>>), N("str", "_is_task", <<>>), N("str", "__class__", <<>>), N("str", "_is_enum", <<>>),
